@@ -273,6 +273,16 @@ def run(ctx):
         dev = float(np.abs(res[0] - res[1]).max() / np.abs(res[1]).max())
         if dev > 1e-12:
             ctx.violation({'kind': 'field-depends-on-the-float-type-of-the-pixel-scales'}, {'dx': dxv, 'du': duv, 'max_difference_over_peak': dev}, case=None)
+    # ... and so are a wavelength and a focal length held in single precision (both: their product would be formed in float32)
+    for (lam32, z32) in ((np.float32(6.5e-7), np.float32(3.3)), (np.float32(5e-7), np.float32(1.7))):
+        res = []
+        for (lam_, z_) in ((lam32, z32), (float(lam32), float(z32))):
+            wv_ = lentil.Wavefront(lam_) * lentil.Pupil(amplitude=np.ones((48, 48)), pixelscale=1e-3, focal_length=z_)
+            res.append(lentil.propagate_dft(wv_, pixelscale=5e-6, shape=(64, 64), oversample=3).field)
+        ctx.case(('float32-wavelength-and-focal-length', float(lam32), float(z32)))
+        dev = float(np.abs(res[0] - res[1]).max() / np.abs(res[1]).max())
+        if dev > 1e-12:
+            ctx.violation({'kind': 'field-depends-on-the-float-type-of-wavelength-and-focal-length'}, {'max_difference_over_peak': dev}, case=None)
     ox.binding_selftest(ctx, lentil, cases[0], spec[cases[0]['id']])
     ctx.traces += len(cases)
     ctx.sample({'case': cases[0], 'spec_observations': spec[0]['obs']}, maxn=1)
